@@ -48,9 +48,13 @@ type Property struct {
 	ID  string
 	Gen func(t *simrt.Tape, tier string) Scenario
 	// Rule describes how cases are generated and what makes one non-trivial.
-	Rule        string
-	Real        []string
-	Stub        []string
+	Rule string
+	Real []string
+	Stub []string
+	// Files are the source files (relative to the module root) whose reach is reported.
+	Files []string
+	// Funcs restricts the reach report to functions whose name contains one of these strings.
+	Funcs       []string
 	Assumptions []string
 }
 
